@@ -6,10 +6,10 @@ from harness import common as C
 
 
 def main():
-  from harness.translate import scalers, sqlshape, statusmap, enummaps, serial, rngsites, warpers, optloop, exptrs, svclocks
+  from harness.translate import scalers, sqlshape, statusmap, enummaps, serial, rngsites, warpers, optloop, exptrs, svclocks, suggdefault
   jobs = [('Gen/Scalers.v', scalers), ('Gen/SqlShapes.v', sqlshape), ('Gen/StatusMap.v', statusmap), ('Gen/EnumMaps.v', enummaps),
           ('Gen/Serial.v', serial), ('Gen/RngSites.v', rngsites), ('Gen/Warpers.v', warpers), ('Gen/OptLoop.v', optloop),
-          ('Gen/Exptrs.v', exptrs), ('Gen/ServiceLocks.v', svclocks)]
+          ('Gen/Exptrs.v', exptrs), ('Gen/ServiceLocks.v', svclocks), ('Gen/SuggestDefault.v', suggdefault)]
   rc = 0
   for rel, mod in jobs:
     try:
